@@ -86,10 +86,18 @@ def global_digest():
     out = {}
 
     def enc_tree(node, acc):
-        c = node.content
-        acc.append('%s|%s|%s|%s|%s|%s|%s|kids%d' % (type(c).__name__, node.min_occurrences, node.max_occurrences, node._requirements_fulfilled,
-                                                     node._force_validate, node._chosen_child is not None, len(getattr(c, '_xml_elements', []) or []),
-                                                     len(node.get_children())))
+        # every plain field of the node and of its content (flags, occurrence bounds, number of attached elements), whatever it is called
+        def plain(o):
+            out = []
+            for k, v in sorted(vars(o).items()):
+                if v is None or isinstance(v, (bool, int, float, str)):
+                    out.append('%s=%r' % (k, v))
+                elif isinstance(v, (list, tuple)) and k not in ('_children', '_traversed', '_iterated_leaves', '_reversed_path_to_root'):
+                    out.append('%s#%d' % (k, len(v)))
+                elif k == '_chosen_child' or 'chosen' in k:
+                    out.append('%s:set' % k)
+            return ','.join(out)
+        acc.append('%s{%s}{%s}kids%d' % (type(node.content).__name__, plain(node), plain(node.content), len(node.get_children())))
         for k in node.get_children():
             enc_tree(k, acc)
     for k in sorted(containers):
